@@ -33,6 +33,9 @@ theorem runAct_log (own passed : Option Nat) (st : St) (a : Act) :
   | postQueue ev cb pass => simp [runAct]
   | add ev h => simp [runAct]
   | remove ev k => simp [runAct]
+  | replace ev h => simp [runAct]
+  | removeFn pid => simp [runAct]
+  | removeEvFn ev pid => simp [runAct]
 
 theorem runActs_log (own passed : Option Nat) (st : St) (acts : List Act) :
     cbs (runActs own passed st acts).log = cbs st.log ∧ callKeys (runActs own passed st acts).log = callKeys st.log := by
